@@ -1,6 +1,11 @@
 """C01 — the sequential simulator computes exactly the documented successor semantics.
 
-P (kernels, real source): StateEvaluator.evaluate exit-state (shared with C14).
+P (kernels, real source): UPSequentialSimulator._evaluate_effect -- the function in which "Boolean assigned both values ends true", "two
+different values make the action inapplicable", "increases and decreases accumulate" and "everything is evaluated in the pre-state" are
+decided -- is executed symbolically against a transition specification written from the statement, over arbitrary bookkeeping
+containers (updated_values, assigned_fluent), for every path: returned (fluent, value), the update of assigned_fluent, which exception
+is raised, no other write (frame, also on the exceptional exits), and every call of the state evaluator is on the pre-state.
+StateEvaluator.evaluate exit-state is proved in C14.
 B: run-time contract on the public API (get_initial_state / is_applicable / apply) against the
 independent reference semantics spec/seqsem.py on generated problems, every state reachable within the
 depth bound, every ground action instance.
@@ -9,7 +14,6 @@ import warnings
 from rtc import seqcheck as SC
 from spec import seqsem
 
-UNITS = []
 
 
 def _stop(failures):
@@ -128,3 +132,252 @@ def bounded(tier, seed):
 
 LEVEL = "other"
 EXPLANATION = __doc__
+
+
+# ======================================================================================================= proved kernel
+import z3
+from pyvc.values import Ref, Seq, Map, Set, SBool, SRef, SUnion, SSeq, SMap, SSet, Rec, CList, Loc, ExcVal, fresh_name, zbool, Unsupported
+from pyvc.values import Bool as PBool
+from pyvc.verify import Unit
+from pyvc import builtins as B
+from contracts import theory as T
+from contracts.theory import OK, OKT, node_type, evn
+import unified_planning.engines.sequential_simulator as _ss
+from unified_planning.exceptions import UPConflictingEffectsException as _Conflict, UPStateMissingFluentError as _Missing
+
+_F = T.FNode.z3sort()
+State01 = Ref("State01")
+SE01 = Ref("StateEvaluator01")
+_E = z3.Function("evaluate_in_pre_state", _F, _F)                     # value of an expression in the pre-state (a constant node)
+_defined = z3.Function("defined_in_pre_state", _F, z3.BoolSort())     # evaluation does not hit a fluent without a value
+_G = z3.Function("ground_fluent_of", T.Fluent.z3sort(), z3.ArraySort(z3.IntSort(), _F), z3.IntSort(), _F)
+CONST_KINDS = (OK.BOOL_CONSTANT, OK.INT_CONSTANT, OK.REAL_CONSTANT, OK.OBJECT_EXP)
+_pb = B._uf("FNode.payload.BOOL_CONSTANT", _F, z3.BoolSort())
+_pi = B._uf("FNode.payload.INT_CONSTANT", _F, z3.IntSort())
+_pr = B._uf("FNode.payload.REAL_CONSTANT", _F, z3.RealSort())
+_po = B._uf("FNode.payload.OBJECT_EXP", _F, T.Object.z3sort())
+
+
+def is_const(x):
+    return z3.Or([node_type(x) == OKT.consts[k] for k in CONST_KINDS])
+
+
+def is_num_const(x):
+    return z3.Or(node_type(x) == OKT.consts[OK.INT_CONSTANT], node_type(x) == OKT.consts[OK.REAL_CONSTANT])
+
+
+def numval(x):
+    return z3.If(node_type(x) == OKT.consts[OK.INT_CONSTANT], z3.ToReal(_pi(x)), _pr(x))
+
+
+def _evaluate(eng, st, selfv, args, kw):
+    exp, state = args
+    st.oblige("the state evaluator is called on the pre-state", state.z == st.ghost["pre_state"].z)
+    for s, ok in eng.branch(st, _defined(exp.z), "evaluate:defined"):
+        if ok:
+            r = _E(exp.z)
+            s.assume(is_const(r), T.args_len(r) == 0)
+            yield s, T.FNode.wrap(r)
+        else:
+            yield s, ExcVal(_Missing, (), "StateEvaluator.evaluate")
+
+
+SE01.methods["evaluate"] = _evaluate
+
+
+def _fluent_call(eng, st, selfv, args, kw):
+    from pyvc.engine import StarSeq
+    seq = B.concat_star(eng, st, list(args)) if any(isinstance(a, StarSeq) for a in args) else SSeq.of(T.FNode, list(args))
+    r = _G(selfv.z, seq.arr, seq.n)
+    _typed_ground(st, r)
+    yield st, T.FNode.wrap(r)
+
+
+def _typed_ground(st, g):
+    """C23: an increase / decrease effect is numeric -- the pre-state value of its ground fluent and every value recorded for it are numbers"""
+    not_assign = st.ghost["not_assign"]
+    upd = st.ghost["upd0"]
+    val = st.ghost["value_node"]
+    isb = lambda x: node_type(x) == OKT.consts[OK.BOOL_CONSTANT]      # noqa: E731
+    st.assume(z3.Implies(z3.And(not_assign, _defined(g)), is_num_const(_E(g))),
+              z3.Implies(z3.And(not_assign, z3.Select(upd.has, g)), is_num_const(z3.Select(upd.val, g))),
+              # an earlier value and the new value of one fluent have the fluent's type class: both Boolean or neither
+              z3.Implies(z3.Select(upd.has, g), isb(z3.Select(upd.val, g)) == isb(_E(val))),
+              z3.Implies(_defined(val), isb(_E(val)) == B._uf("Type.is_bool_type()", T.Type.z3sort(), z3.BoolSort())(B._uf("FNode.type", _F, T.Type.z3sort())(g))))
+
+
+def _auto_promote(eng, st, selfv, args, kw):
+    (v,) = args
+    from pyvc.values import SInt, SReal
+    from fractions import Fraction
+    if isinstance(v, (SInt, int)) and not isinstance(v, bool):
+        yield st, st.alloc(CList([T.mk_int(eng, st, v)]), "list")
+    elif isinstance(v, (SReal, Fraction)):
+        # uniform_numeric_constant: an integral Fraction becomes an int constant; the numeric value is what matters here
+        r = T.mk_real(eng, st, v)
+        yield st, st.alloc(CList([r]), "list")
+    else:
+        raise Unsupported(f"auto_promote({v!r})")
+
+
+class EvaluateEffect(Unit):
+    prop = "C01"
+    name = "UPSequentialSimulator._evaluate_effect"
+    doc = "one effect against the bookkeeping of the effects already processed: transition specification of the statement, frame, pre-state evaluation"
+    allowed_raises = (_Conflict, _Missing)
+
+    def target(self):
+        return _ss.UPSequentialSimulator._evaluate_effect
+
+    def configure(self, eng):
+        eng.axioms += T.semantic_axioms((OK.BOOL_CONSTANT, OK.INT_CONSTANT, OK.REAL_CONSTANT, OK.OBJECT_EXP))
+        T.Fluent.methods["__call__"] = _fluent_call
+        T.Manager.methods["auto_promote"] = _auto_promote
+        eng.UNROLL = 1      # arity of the effect's fluent (irrelevant to the bookkeeping): 0 and 1 argument explored, labelled bounded
+        # canonical constants (hash-consing + numeric normalisation, C16): equal values are the same node
+        a, b = z3.Const("a!c01", _F), z3.Const("b!c01", _F)
+        C = OKT.consts
+        eng.axioms += [
+            z3.ForAll([a, b], z3.Implies(z3.And(node_type(a) == C[OK.BOOL_CONSTANT], node_type(b) == C[OK.BOOL_CONSTANT], _pb(a) == _pb(b)), a == b),
+                      patterns=[z3.MultiPattern(_pb(a), _pb(b))]),
+            z3.ForAll([a, b], z3.Implies(z3.And(node_type(a) == C[OK.OBJECT_EXP], node_type(b) == C[OK.OBJECT_EXP], _po(a) == _po(b)), a == b),
+                      patterns=[z3.MultiPattern(_po(a), _po(b))]),
+            z3.ForAll([a, b], z3.Implies(z3.And(is_num_const(a), is_num_const(b), numval(a) == numval(b)), a == b),
+                      patterns=[z3.MultiPattern(node_type(a), node_type(b))]),
+            # a real constant is never integral (it would have been normalised to an int constant)
+            z3.ForAll([a], z3.Implies(node_type(a) == C[OK.REAL_CONSTANT], z3.Not(z3.IsInt(_pr(a)))), patterns=[_pr(a)])]
+
+    def setup(self, eng, st):
+        se = SE01.fresh("se")
+        w = st.alloc(Rec(_ss.UPSequentialSimulator, {"_se": se}), "simulator")
+        eff = T.Effect.fresh("effect")
+        state = State01.fresh("state")
+        st.ghost["pre_state"] = state
+        upd = eng.fresh_of(st, Map(T.FNode, T.FNode), "updated_values")
+        asg = eng.fresh_of(st, Set(T.FNode), "assigned_fluent")
+        em = T.Manager.fresh("em")
+        uloc, aloc = st.alloc(upd, "dict"), st.alloc(asg, "set")
+        # the effect is well formed (C23): its fluent is a fluent expression, its kind one of the three the simulator supports
+        fl = B.field_uf(eng, st, eff, "_fluent")
+        st.assume(node_type(fl.z) == OKT.consts[OK.FLUENT_EXP])
+        from unified_planning.model.effect import EffectKind as _EK
+        kind = B._uf("Effect._kind", T.Effect.z3sort(), T.EKT.z3sort())(eff.z)
+        st.assume(z3.Or([kind == T.EKT.consts[x] for x in (_EK.ASSIGN, _EK.INCREASE, _EK.DECREASE)]))
+        not_assign = kind != T.EKT.consts[_EK.ASSIGN]
+        st.ghost["not_assign"], st.ghost["upd0"] = not_assign, upd
+        val = B._uf("Effect._value", T.Effect.z3sort(), _F)(eff.z)
+        st.ghost["value_node"] = val
+        st.assume(z3.Implies(z3.And(not_assign, _defined(val)), is_num_const(_E(val))))
+        # values already recorded are constants of the fluent's type class; recorded accumulations are numeric
+        k = z3.Const(fresh_name("k"), _F)
+        st.assume(z3.ForAll([k], z3.Implies(z3.Select(upd.has, k), is_const(z3.Select(upd.val, k))), patterns=[z3.Select(upd.val, k)]))
+        return [w, eff, state, uloc, aloc, em], {}, dict(eff=eff, upd=upd, asg=asg, uloc=uloc, aloc=aloc, fl=fl)
+
+    def post(self, eng, ctx, st, out):
+        eff, upd0, asg0 = ctx["eff"], ctx["upd"], ctx["asg"]
+        upd1, asg1 = st.load(ctx["uloc"]), st.load(ctx["aloc"])
+        k = z3.Const(fresh_name("k"), _F)
+        fl = ctx["fl"].z
+        fluent_obj = B._uf("FNode.payload.FLUENT_EXP", _F, T.Fluent.z3sort())(fl)
+        j = z3.Int(fresh_name("j"))
+        # the ground fluent: the effect's fluent applied to its arguments evaluated in the pre-state
+        gs = [g for g in (st.ghost.get("ground"),) if g is not None]
+        st.oblige("updated_values is not written by the function (the caller stores the returned pair)",
+                  z3.BoolVal(isinstance(upd1, SMap)) if not isinstance(upd1, SMap) else z3.And(upd1.has == upd0.has, upd1.val == upd0.val))
+        kind = B._uf("Effect._kind", T.Effect.z3sort(), T.EKT.z3sort())(eff.z)
+        EK = T.EKT.consts
+        from unified_planning.model.effect import EffectKind
+        cond = B._uf("Effect._condition", T.Effect.z3sort(), _F)(eff.z)
+        val = B._uf("Effect._value", T.Effect.z3sort(), _F)(eff.z)
+        cond_true_node = z3.And(node_type(cond) == OKT.consts[OK.BOOL_CONSTANT], _pb(cond))
+        fires = z3.Or(cond_true_node, z3.And(node_type(_E(cond)) == OKT.consts[OK.BOOL_CONSTANT], _pb(_E(cond))))
+        v = _E(val)
+        if out[0] == "raise":
+            st.oblige("a rejected effect leaves assigned_fluent unchanged", asg1.has == asg0.has)
+            if out[1].cls is _Conflict:
+                g = st.ghost.get("last_ground")
+            return
+        r = out[1]
+        rf, rv = r
+        if rf is None:
+            st.oblige("no change is reported only together (fluent None <=> value None)", z3.BoolVal(rv is None))
+            st.oblige("assigned_fluent unchanged when nothing is reported", asg1.has == asg0.has)
+            return
+        g = rf.z
+        has_old, old, in_as = z3.Select(upd0.has, g), z3.Select(upd0.val, g), z3.Select(asg0.has, g)
+        is_assign = kind == EK[EffectKind.ASSIGN]
+        st.oblige("a reported write means the effect's condition holds in the pre-state", fires)
+        # --- assignment
+        st.oblige("assignment: the reported value is the effect's value evaluated in the pre-state", z3.Implies(is_assign, rv.z == v))
+        st.oblige("assignment reported over an earlier different value only for a Boolean fluent that was false (add-after-delete)",
+                  z3.Implies(z3.And(is_assign, has_old, old != v),
+                             z3.And(node_type(old) == OKT.consts[OK.BOOL_CONSTANT], z3.Not(_pb(old)))))
+        st.oblige("assignment over an earlier equal value only if that value came from an assignment",
+                  z3.Implies(z3.And(is_assign, has_old, old == v), in_as))
+        st.oblige("assignment: the fluent is recorded as assigned (unless add-after-delete on an already assigned fluent)",
+                  z3.Implies(is_assign, z3.Or(z3.Select(asg1.has, g), z3.And(has_old, old != v))))
+        st.oblige("assigned_fluent grows by at most the written fluent",
+                  z3.ForAll([k], z3.Implies(k != g, z3.Select(asg1.has, k) == z3.Select(asg0.has, k))))
+        st.oblige("assigned_fluent never shrinks", z3.Implies(in_as, z3.Select(asg1.has, g)))
+        # --- increase / decrease
+        inc, dec = kind == EK[EffectKind.INCREASE], kind == EK[EffectKind.DECREASE]
+        base = z3.If(has_old, old, _E(g))
+        st.oblige("increase / decrease never on a fluent assigned in the same action", z3.Implies(z3.Not(is_assign), z3.Not(in_as)))
+        st.oblige("increase: accumulated value (earlier accumulation, else the pre-state value) plus the amount",
+                  z3.Implies(inc, z3.And(is_num_const(rv.z), numval(rv.z) == numval(base) + numval(v))))
+        st.oblige("decrease: accumulated value minus the amount",
+                  z3.Implies(dec, z3.And(is_num_const(rv.z), numval(rv.z) == numval(base) - numval(v))))
+        st.oblige("increase / decrease do not mark the fluent as assigned", z3.Implies(z3.Not(is_assign), asg1.has == asg0.has))
+
+
+class EvaluateEffectRejections(EvaluateEffect):
+    """the other direction: when the specification says `conflict`, the function raises (it does not silently pick a value)"""
+    name = "UPSequentialSimulator._evaluate_effect (rejections are complete)"
+    doc = "given the ground fluent: two different non-Boolean values, assignment mixed with increase/decrease => UPConflictingEffectsException; Boolean true absorbs"
+
+    def setup(self, eng, st):
+        args, kw, ctx = super().setup(eng, st)
+        g = T.FNode.fresh("ground_fluent")
+        _typed_ground(st, g.z)
+        ctx["g"] = g
+        return args, {"evaluated_fluent": g}, ctx
+
+    def post(self, eng, ctx, st, out):
+        eff, upd0, asg0, g = ctx["eff"], ctx["upd"], ctx["asg"], ctx["g"].z
+        from unified_planning.model.effect import EffectKind
+        kind = B._uf("Effect._kind", T.Effect.z3sort(), T.EKT.z3sort())(eff.z)
+        EK = T.EKT.consts
+        cond = B._uf("Effect._condition", T.Effect.z3sort(), _F)(eff.z)
+        val = B._uf("Effect._value", T.Effect.z3sort(), _F)(eff.z)
+        cond_true_node = z3.And(node_type(cond) == OKT.consts[OK.BOOL_CONSTANT], _pb(cond))
+        fires = z3.Or(cond_true_node, z3.And(node_type(_E(cond)) == OKT.consts[OK.BOOL_CONSTANT], _pb(_E(cond))))
+        v = _E(val)
+        has_old, old, in_as = z3.Select(upd0.has, g), z3.Select(upd0.val, g), z3.Select(asg0.has, g)
+        is_assign = kind == EK[EffectKind.ASSIGN]
+        gtype = B._uf("FNode.type", _F, T.Type.z3sort())(g)
+        gbool = B._uf("Type.is_bool_type()", T.Type.z3sort(), z3.BoolSort())(gtype)
+        # values have the type class of the fluent (C23): Boolean fluent <=> Boolean constants
+        typed = z3.And(gbool == (node_type(v) == OKT.consts[OK.BOOL_CONSTANT]),
+                       z3.Implies(has_old, gbool == (node_type(old) == OKT.consts[OK.BOOL_CONSTANT])))
+        conflict = z3.And(fires, z3.Or(z3.And(is_assign, has_old, old != v, z3.Not(gbool)),
+                                       z3.And(is_assign, has_old, old == v, z3.Not(in_as)),
+                                       z3.And(z3.Not(is_assign), in_as)))
+        if out[0] == "raise":
+            if out[1].cls is _Conflict:
+                st.oblige("UPConflictingEffectsException only for a conflict of the specification", z3.Implies(typed, conflict))
+            return
+        rf, rv = out[1]
+        st.oblige("a conflict of the specification is never accepted", z3.Implies(typed, z3.Not(conflict)))
+        if rf is None:
+            absorbed = z3.And(is_assign, has_old, old != v, gbool, _pb(old))
+            st.oblige("nothing is reported only if the condition is false or a Boolean true absorbs a later false",
+                      z3.Implies(typed, z3.Or(z3.Not(fires), absorbed)))
+        else:
+            st.oblige("the reported fluent is the ground fluent of the effect", rf.z == g)
+
+
+UNITS = [EvaluateEffect(), EvaluateEffectRejections()]
+TRUSTED = ["StateEvaluator.evaluate returns the constant value of an expression in the given state or raises UPStateMissingFluentError (its exit "
+           "state is proved in C14; its value is the reference semantics of the bounded layer)",
+           "constants are canonical (hash-consing and numeric normalisation, C16); recorded values have the fluent's type class (C23)",
+           "Fluent.__call__ builds the fluent expression of its arguments; arity of the fluent explored for 0 and 1 argument in the grounding expression (labelled bounded); the second unit takes the ground fluent as given and is unbounded"]
